@@ -475,7 +475,11 @@ def _build_damp(d, w, vector):
             kw["z_grid_field"] = g[2]
             kw["field_type"] = "vector" if vector else "scalar"
         K = getattr(spne, f"gen_penalise_field_boundary_pyst_kernel_{d}d")(**kw)
-        return K, {"dx": float(dx)}
+        # the kernel sees the coordinates as working-precision numbers: distances to the first/last cell centre carry
+        # eps*|coordinate| of representation error, amplified by the sine prefactor (pi/2)/(w dx)
+        cmax = max(float(np.max(np.abs(a))) for a in g)
+        amp = max(1.0, cmax * (np.pi / 2) / (max(w, 1) * float(dx)) / 16.0)
+        return K, {"dx": float(dx), "amp": amp}
     return build_for
 
 
@@ -486,12 +490,12 @@ def _mk_damp(w, vector):
             kw = dict(field=A.inout(shape))
             # the outermost ring is multiplied by sin(0): the closed form is 0 there, the floor is eps * |field|
             return Case(K, kw, dict(field="inout"), lambda i: {"field": (ops.boundary_damp(i["field"], w, dx), m_zone(shape, w))}, smooth=("field",),
-                        scale=float(np.max(np.abs(kw["field"]))))
+                        scale=float(np.max(np.abs(kw["field"]))) * ctx["amp"])
         s = (3,) + shape
         kw = dict(vector_field=A.inout(s))
         return Case(K, kw, dict(vector_field="inout"),
                     lambda i: {"vector_field": (np.stack([ops.boundary_damp(i["vector_field"][c], w, dx) for c in range(3)]), m_zone(s, w, 1))}, smooth=("vector_field",),
-                    scale=float(np.max(np.abs(kw["vector_field"]))))
+                    scale=float(np.max(np.abs(kw["vector_field"]))) * ctx["amp"])
     return make
 
 
